@@ -179,6 +179,23 @@ def c2s_records(rng, n):
             else:
                 bv = BeatValues.from_str("0.000=120.000,\n" + sx + "=150.000\n")
                 add({"t": "fromstr", "text": cps(sx), "got": rat(Fraction(bv[1].beat))})
+        elif r < 0.205:
+            # decimal strings in exponent form ('33e-2', '5E-1', '1.25e1', '7e0'): still decimal strings, still snapped
+            mant = rng.choice(["%d" % rng.randint(1, 4000), "%d.%d" % (rng.randint(0, 300), rng.randint(0, 999)), "-%d" % rng.randint(1, 999)])
+            sx = mant + rng.choice(["e", "E"]) + rng.choice(["-1", "-2", "-3", "0", "1", "+1", "-4"])
+            try:
+                fx = Fraction(sx)
+            except ValueError:
+                continue
+            if fx.denominator > 10 ** 6 or abs(fx) > (400 if fx.denominator <= 10 ** 5 else 40):      # (the spec's cross-multiplications must fit TLC's integers)
+                continue
+            how = rng.randrange(3)
+            if how == 0:
+                add({"t": "inexact", "inp": rat(fx), "got": rat(Beat(sx))})
+            elif how == 1:
+                add({"t": "inexact", "inp": rat(fx), "got": rat(Beat.from_str(sx))})
+            else:
+                add({"t": "inexact", "inp": rat(fx), "got": rat(Beat(Decimal(sx)))})
         elif r < 0.22:
             nn, dd = rng.randint(-3000, 3000), rng.randint(1, 1000)
             how = rng.random()
